@@ -13,6 +13,7 @@
 #include <primesieve/PrimeGenerator.hpp>
 #include <primesieve/iterator.hpp>
 #include <primesieve/pmath.hpp>
+#include <primesieve/PreSieve.hpp>
 #undef private
 #undef protected
 #include "common.hpp"
@@ -50,6 +51,15 @@ int main()
       // Wheel::addSievingPrime unit level: "<multipleIndex> <wheelIndex>" | "none"
       if (t[0] == "ASP30") { Rec<Wheel30_t> w; w.stop_ = u64(t[1]); w.addSievingPrime(u64(t[2]), u64(t[3])); if (w.stored) std::cout << w.mi << " " << w.wi << std::endl; else std::cout << "none" << std::endl; }
       else { Rec<Wheel210_t> w; w.stop_ = u64(t[1]); w.addSievingPrime(u64(t[2]), u64(t[3])); if (w.stored) std::cout << w.mi << " " << w.wi << std::endl; else std::cout << "none" << std::endl; }
+    } else if (t.size() >= 3 && t[0] == "PRESIEVE") {
+      // PRESIEVE segmentLow size: the bytes of the sieve array after PreSieve::preSieve (capacity >= 8 as in Erat::init)
+      std::size_t size = (std::size_t) u64(t[2]);
+      Vector<uint8_t> sieve; sieve.reserve(std::max<std::size_t>(size, 16)); sieve.resize(size);
+      for (std::size_t i = 0; i < size; i++) sieve[i] = 0;
+      PreSieve::preSieve(sieve, u64(t[1]));
+      std::string out;
+      for (std::size_t i = 0; i < size; i++) out += std::to_string((unsigned) sieve[i]) + (i + 1 < size ? " " : "");
+      std::cout << out << std::endl;
     } else if (t.size() >= 6 && t[0] == "XOFF") {
       // XOFF size l1 prime multipleIndex wheelIndex: the real EratSmall::crossOff on an all-ones sieve of `size` bytes with one
       // sieving prime in the given state: "byte:value ..." for every byte that changed, then "| multipleIndex wheelIndex"
